@@ -147,6 +147,9 @@ def run(R, ctx):
     R.rule('R11.5', 'start table: the previous current file is rotated or continued, not truncated (shared with R06.3)')
     import c06 as _c06
     _c06.start_table(Relabel(R, {'R06.3': 'R11.5', 'R06.5': 'R11.5'}), ctx)
+    # a kill inside a cleanup pass leaves a directory an orderly shutdown never produces (a .gz with a higher number than every plain file): the start
+    # index must be the maximum over ALL listed files, not the first hit of a listing that is only sorted part by part
+    _c06.highest_is_maximum(R, ctx, ctx.body(r'^writers::file_log_writer::state::numbers::get_highest_index$'), rule='R11.5')
 
 class _To:
     def __init__(self, R, to):
